@@ -47,7 +47,14 @@ fn ref_loops(kinds: &[u8]) -> usize {
 }
 
 fn check_loops(kinds: &[u8], f: &Field) {
-    let v: Vec<Frame> = kinds.iter().map(|&k| frame(k, f)).collect();
+    // a real allocation even for the empty stack (a dangling zero-capacity Vec makes CBMC reason
+    // about a symbolic pointer: out of memory)
+    let mut v: Vec<Frame> = Vec::with_capacity(kinds.len() + 1);
+    let mut vi = 0;
+    while vi < kinds.len() {
+        v.push(frame(kinds[vi], f));
+        vi += 1;
+    }
     let stack = Stack::from(v);
     let max: usize = kani::any();
     let exact = ref_loops(kinds);
@@ -74,21 +81,37 @@ fn check_loops(kinds: &[u8], f: &Field) {
 }
 
 macro_rules! loops_harness {
-    ($name:ident, $($n:literal),*) => {
+    ($name:ident, $n:literal) => {
         #[kani::proof]
         #[kani::unwind(8)]
         fn $name() {
+            // one stack depth per harness (several depths in one harness ran CBMC out of memory)
             let f = Field::dummy("b");
             let keep = f.clone();
-            let sel: u8 = kani::any();
-            $( if sel == $n { let k = any_kinds::<$n>(); check_loops(&k, &f); } )*
-            kani::assume(false $( || sel == $n )*);
+            let k = any_kinds::<$n>();
+            check_loops(&k, &f);
+            kani::cover!(true, "each: reached");
             std::mem::forget(keep);
             std::mem::forget(f);
         }
     };
 }
-loops_harness!(c02_loop_levels_0_3, 0, 1, 2, 3);
+loops_harness!(c02_loop_levels_1, 1);
+loops_harness!(c02_loop_levels_2, 2);
+loops_harness!(c02_loop_levels_3, 3);
 loops_harness!(c02_loop_levels_4, 4);
 loops_harness!(c02_loop_levels_5, 5);
 
+/// Depth 0: the empty stack (written out; the generic harness with a zero-length symbolic
+/// array ran CBMC out of memory).
+#[kani::proof]
+#[kani::unwind(8)]
+fn c02_loop_levels_0() {
+    let f = Field::dummy("b");
+    let keep = f.clone();
+    let none: [u8; 0] = [];
+    check_loops(&none, &f);
+    kani::cover!(true, "each: reached");
+    std::mem::forget(keep);
+    std::mem::forget(f);
+}
